@@ -27,6 +27,7 @@ fn main() {
     vfcommon::install_quiet_panic_hook();
     let code = match args.prop.as_str() {
         "C04" => errtree::run(&args, errtree::Mode::Algebra),
+        "C03" if args.extra.get("part").map(|s| s.as_str()) == Some("map-spans") => c14::run(&args),
         "C03" => errtree::run(&args, errtree::Mode::Spans),
         "C05" => c05::run(&args),
         "C06" if args.extra.get("part").map(|s| s.as_str()) == Some("malformed-values") => c10::run_malformed(&args),
